@@ -7,8 +7,28 @@
     manager; [fixed] is the repaired code, [pre_fix] / [once_only] the code
     before the repairs / with the first repair only. *)
 From Coq Require Import List NArith ZArith Bool.
-From MM Require Import Model.PeerReg Proofs.PeerRegProofs.
+From MM Require Import Model.PeerReg Proofs.PeerRegProofs Generated.C32.
 Import ListNotations.
+
+(** The facts regenerated from manager.go / agent.go on this run select the
+    repaired variant of the model and confirm its granularity: duplicate check
+    and insertion in one critical section, the duplicate branch closes the new
+    connection without starting loops, handleDisconnect removes the map entry
+    only if it is this connection, the read loop reports a teardown at one
+    place and the keepalive loop at two, and the agent's callback cleans up by
+    peer identity. *)
+Definition gen_variant : variant :=
+  {| v_once := gen_disconnect_once_and_not_replaced;
+     v_serial := gen_register_waits_for_lifecycle && gen_disconnect_holds_lifecycle |}.
+
+Theorem C32_source_facts :
+  gen_variant = fixed /\
+  gen_register_check_and_insert_atomic = true /\ gen_register_reject_closes_without_loops = true /\
+  gen_disconnect_removes_only_same_conn = true /\
+  gen_readloop_teardown_reports = 1%N /\ gen_keepalive_teardown_reports = 2%N /\
+  gen_agent_cleanup_by_peer_id = true /\ gen_agent_callback_wired = true.
+Proof. repeat split; reflexivity. Qed.
+Print Assumptions C32_source_facts.
 
 (** At most one live connection per remote identity. *)
 Theorem C32_one_live_connection : forall s, reachable s ->
